@@ -360,7 +360,7 @@ def _guards_at(x, node):
     out = []
     for test, pol, br in x.g.dominating_conditions(node):
         if pol in ("true", "false"):
-            out += atoms_of(test, pol == "true", lambda e, br=br: x.text(e, br))
+            out += atoms_of(x.expand(test, br), pol == "true")       # expand first: an inlined helper test is decomposed too
     return out
 
 
